@@ -92,12 +92,16 @@ class Env:
     def apply_undef(self, head: str, args: list[Any]) -> Any:
         acc = mpf(_h("f0", head) % 89) / 29
         for k, a in enumerate(args):
+            if abs(a) > 10**12:
+                raise IllConditioned("argument too large for a periodic interpretation at 50 digits")
             acc = acc + (mpf(1 + _h("fk", head, k) % 13) / 7) * tame(a)
         return MP.cos(acc) + mpf(2) + mpf(_h("f1", head) % 5) / 3
 
     def indexed(self, base: str, idx: list[Any]) -> Any:
         acc = mpf(_h("i0", base, self.salt) % 83) / 31
         for k, a in enumerate(idx):
+            if abs(a) > 10**12:
+                raise IllConditioned("index too large for a periodic interpretation at 50 digits")
             acc = acc + (mpf(1 + _h("ik", base, k) % 11) / 5) * tame(a)
         return MP.sin(acc) + mpf("1.75")
 
@@ -154,6 +158,8 @@ def apply_named(name: str, args: list[Any]) -> Any:
     args = [tame(a) for a in args]
     if name == "exp" and abs(MP.re(args[0])) > 600:
         raise IllConditioned("exp overflow")
+    if name in ("sin", "cos", "tan", "cot", "sec", "csc") and abs(args[0]) > 10**12:
+        raise IllConditioned("trigonometric function of a huge argument at 50 digits")
     try:
         if name == "log":
             if len(args) == 1:
